@@ -11,7 +11,7 @@ import hashlib, os, shutil, subprocess, sys, time, glob, fcntl
 VERIF = os.path.dirname(os.path.dirname(os.path.abspath(__file__)))
 REPO = os.environ.get("VERIF_REPO", "/repo")
 CACHE = os.path.join(VERIF, ".cache", "build")
-KEEP = 4
+KEEP = 8
 GUARD = "MEDDLY_VERIF"
 
 FLAVORS = {
@@ -33,7 +33,7 @@ def lib_sources():
     return srcs
 
 
-def tree_hash(flavor):
+def tree_hash(flavor, with_harness=True):
     h = hashlib.sha256()
     files = []
     for root, _, names in os.walk(os.path.join(REPO, "src")):
@@ -41,9 +41,10 @@ def tree_hash(flavor):
             if n.endswith((".cc", ".h", ".hh")):
                 files.append(os.path.join(root, n))
     files.append(os.path.join(REPO, "config.h"))
-    for f in sorted(glob.glob(os.path.join(VERIF, "harness", "*"))):
-        if f.endswith((".cc", ".h")):
-            files.append(f)
+    if with_harness:
+        for f in sorted(glob.glob(os.path.join(VERIF, "harness", "*"))):
+            if f.endswith((".cc", ".h")):
+                files.append(f)
     for f in sorted(files):
         h.update(f.encode())
         with open(f, "rb") as fh:
@@ -111,24 +112,35 @@ def build(flavor="plain", verbose=True):
         cflags, lflags = FLAVORS[flavor]
         incs = ["-I" + REPO, "-I" + os.path.join(REPO, "src")]
         log = []
-        objs = _compile_all(lib_sources(), os.path.join(tmp, "lib"), cflags, incs, log)
-        if objs is None:
-            shutil.rmtree(tmp, ignore_errors=True)
-            raise BuildError("\n".join(log))
+        libkey = tree_hash(flavor, with_harness=False)
+        libdir = os.path.join(CACHE, "lib-" + flavor + "-" + libkey)
+        liba = os.path.join(libdir, "libmeddly.a")
+        if not os.path.exists(liba) or os.environ.get("VERIF_NO_CACHE"):
+            ltmp = libdir + ".tmp%d" % os.getpid()
+            shutil.rmtree(ltmp, ignore_errors=True)
+            objs = _compile_all(lib_sources(), os.path.join(ltmp, "lib"), cflags, incs, log)
+            if objs is None:
+                shutil.rmtree(tmp, ignore_errors=True)
+                shutil.rmtree(ltmp, ignore_errors=True)
+                raise BuildError("\n".join(log))
+            r = _run(["ar", "rcs", os.path.join(ltmp, "libmeddly.a")] + objs)
+            if r.returncode:
+                raise BuildError(r.stdout)
+            shutil.rmtree(os.path.join(ltmp, "lib"), ignore_errors=True)
+            shutil.rmtree(libdir, ignore_errors=True)
+            os.rename(ltmp, libdir)
+        else:
+            os.utime(libdir, None)
         hsrcs = sorted(glob.glob(os.path.join(VERIF, "harness", "*.cc")))
         hobjs = _compile_all(hsrcs, os.path.join(tmp, "h"), cflags,
                              incs + ["-I" + os.path.join(VERIF, "harness")], log)
         if hobjs is None:
             shutil.rmtree(tmp, ignore_errors=True)
             raise BuildError("\n".join(log))
-        r = _run(["ar", "rcs", os.path.join(tmp, "libmeddly.a")] + objs)
-        if r.returncode:
-            raise BuildError(r.stdout)
-        r = _run(["g++"] + lflags + hobjs + [os.path.join(tmp, "libmeddly.a"), "-lgmp", "-o", os.path.join(tmp, "mdh")])
+        r = _run(["g++"] + lflags + hobjs + [liba, "-lgmp", "-o", os.path.join(tmp, "mdh")])
         if r.returncode:
             shutil.rmtree(tmp, ignore_errors=True)
             raise BuildError("LINK FAILED\n" + r.stdout[-4000:])
-        shutil.rmtree(os.path.join(tmp, "lib"), ignore_errors=True)
         shutil.rmtree(os.path.join(tmp, "h"), ignore_errors=True)
         shutil.rmtree(out, ignore_errors=True)
         os.rename(tmp, out)
